@@ -242,14 +242,14 @@ def _indent_description(indent: str) -> str:
         return "no indent"
     elif " " in indent and "\t" in indent:
         return "mixed indent"
-    elif indent[0] == " ":
-        assert all(c == " " for c in indent)
+    elif all(c == " " for c in indent):
         return f"indent of {len(indent)} spaces"
-    elif indent[0] == "\t":  # pragma: no cover
-        assert all(c == "\t" for c in indent)
+    elif all(c == "\t" for c in indent):  # pragma: no cover
         return f"indent of {len(indent)} tabs"
-    else:  # pragma: no cover
-        raise NotImplementedError(f"Invalid indent construction: {indent!r}")
+    else:
+        # A pre-existing indent made of other whitespace characters
+        # (e.g. form feeds or no-break spaces).
+        return "mixed indent"
 
 
 @dataclass(frozen=True)
